@@ -100,6 +100,16 @@ def _collect(job, h, timeout):
     return ['items', out]
 
 
+def _get(pool, h, timeout):
+    """h.get(timeout); without helper threads the caller is the event loop"""
+    if not pool.threads:
+        t_end = time.monotonic() + timeout
+        while not h.ready() and time.monotonic() < t_end:
+            pool.handle_result_event()
+            time.sleep(0.002)
+    return h.get(timeout if pool.threads else 0)
+
+
 def _pool_threads(before):
     from billiard.pool import PoolThread
     return [t for t in threading.enumerate()
@@ -183,7 +193,7 @@ def sc_terminate(params, obs, save):
     done_before = []
     for i in range(params.get('finished_jobs', 2)):
         h = pool.apply_async(tasks.t_value, ('pre.%d' % i, 0.01))
-        done_before.append(['pre.%d' % i, h, h.get(20)])
+        done_before.append(['pre.%d' % i, h, _get(pool, h, 30)])
     running = []
     state = params['worker_state']
     for i in range(params.get('busy', 1)):
@@ -258,12 +268,24 @@ def sc_gc_pool(params, obs, save):
     del pool
     gc.collect()
     obs['gc_wall'] = time.monotonic() - t0
-    _wait_for(lambda: not any(pid_exists(p) for p in up), 15)
-    kids = dict(children_of(os.getpid()))
-    obs['workers_after'] = {str(pid): (kids.get(pid) or pid_exists(pid)) for pid in up
-                            if (kids.get(pid) or pid_exists(pid))}
+    time.sleep(1.0)
+    gc.collect()
+    # (the pool's own threads keep it alive, so nothing is torn down here;
+    # "harmless" = no exception, no hang, delivered results intact, and the
+    # interpreter's exit handlers still run to completion)
     obs['values_after'] = [_outcome(lambda h=h: h.get(0)) for h in r]
-    obs['threads_after'] = _thread_names(_pool_threads(before))
+    t1 = time.monotonic()
+    try:
+        from billiard import util
+        util._exit_function()
+        obs['exit_function'] = 'ok'
+    except BaseException as exc:       # noqa
+        obs['exit_function'] = repr(exc)
+    obs['exit_function_wall'] = time.monotonic() - t1
+    kids = dict(children_of(os.getpid()))
+    obs['workers_after_exit_function'] = {
+        str(pid): (kids.get(pid) or pid_exists(pid)) for pid in up
+        if (kids.get(pid) or pid_exists(pid)) not in (None, 'Z')}
 
 
 def sc_signal_worker(params, obs, save):
@@ -280,8 +302,16 @@ def sc_signal_worker(params, obs, save):
     sig = params.get('sig', int(signal.SIGTERM))
     victims = []
     if state == 'idle':
+        # make sure every worker has finished starting up (its signal
+        # handlers are installed) and is back in its receive loop
+        seen = set()
+        t_end = time.monotonic() + 20
+        while len(seen) < params['nproc'] and time.monotonic() < t_end:
+            hs = [pool.apply_async(tasks.t_pid, ('warm', 0.15)) for _ in range(params['nproc'])]
+            for x in hs:
+                seen.add(x.get(20)[2])
         time.sleep(0.3)
-        victim = pool._pool[0].pid
+        victim = sorted(seen)[0] if seen else None
         h = None
     else:
         fn = {'python': tasks.t_busy, 'c_sleep': tasks.t_value,
@@ -292,8 +322,14 @@ def sc_signal_worker(params, obs, save):
         victim = (h.worker_pids() or [None])[0]
         time.sleep(params.get('settle', 0.3))
     obs['victim'] = victim
-    others = [pool.apply_async(tasks.t_value, ('other.%d' % i, 0.3), lost_worker_timeout=T)
-              for i in range(params.get('others', 2))]
+    if victim is None:
+        obs['no_victim'] = True
+        pool.terminate()
+        return
+    others = []
+    if state != 'idle':
+        others = [pool.apply_async(tasks.t_value, ('other.%d' % i, 0.3), lost_worker_timeout=T)
+                  for i in range(params.get('others', 2))]
     save()
     log('signal_sent', wpid=victim, sig=sig, source=params['source'])
     t0 = time.monotonic()
@@ -305,7 +341,7 @@ def sc_signal_worker(params, obs, save):
         pass              # the pool sends it when the limit expires
     # the victim's job must resolve (Terminated / WorkerLostError / TimeLimitExceeded)
     if h is not None:
-        _wait_for(lambda: h.ready(), params.get('resolve_wait', 20))
+        _wait_for(lambda: h.ready(), params.get('resolve_wait', 15))
         obs['victim_resolved_after'] = time.monotonic() - t0
         obs['victim_outcome'] = _outcome(lambda: h.get(0)) if h.ready() else ['unresolved']
     gone = _wait_for(lambda: pid_exists(victim) in (None, 'Z'), 8)
@@ -316,11 +352,14 @@ def sc_signal_worker(params, obs, save):
         os.kill(victim, sig)
         _wait_for(lambda: pid_exists(victim) in (None, 'Z'), 5)
         obs['victim_state_after_second'] = pid_exists(victim)
+    if state == 'idle':
+        others = [pool.apply_async(tasks.t_value, ('other.%d' % i, 0.3), lost_worker_timeout=T)
+                  for i in range(params.get('others', 2))]
     obs['others'] = [_outcome(lambda o=o: o.get(20)) for o in others]
     # the pool goes on serving later jobs
     later = [pool.apply_async(tasks.t_pid, ('later.%d' % i, 0.05), lost_worker_timeout=T)
              for i in range(params.get('later', 3))]
-    obs['later'] = [_outcome(lambda o=o: o.get(25)) for o in later]
+    obs['later'] = [_outcome(lambda o=o: o.get(12)) for o in later]
     obs['pool_pids_end'] = [w.pid for w in pool._pool]
     obs['worst_stall'] = hb.stop()
     save()
